@@ -41,6 +41,31 @@ def build(repo, tier):
                         'free variables / polarity on non-ground junk (MetaVar inside sigma values) are fixed constants chosen so that all lemmas hold unconditionally'],
                     functions=[(PFILE, f'{cn}.evar_is_free') for cn in PCTORS] + [('rust/src/lib.rs', 'Pattern::' + n) for n in ('e_fresh', 's_fresh', 'positive', 'negative')], notes=notes)
     spec.lemma_replayers['lemma:rs_'] = judgement_replayer
+    if rs_ok:
+        # where the checker CONSULTS the judgements: the opcode arms Generalization (e_fresh), Mu (positivity), MetaVar / ESubst / SSubst (well-formedness)
+        # and Instantiate (all four, per constraint list), each from an arbitrary loop state - a judgement that is right but asked about the wrong
+        # pattern / variable, or skipped because of something an earlier instruction left behind, fails here
+        from vc.speclemmas import PY_SIDE
+        from contracts.rust_subst import inst_contracts
+        from contracts.sm_contracts import step_unit, equivalence_lemmas, ReadVecContract, TakeLoop
+        from vc.reflect import rs_judgement_contracts
+        from .c05 import RS_ASSUMPTIONS, step_replayer, differential_standin
+        rcs, hof, preds = inst_contracts(rsf)
+        rcs.update(rs_judgement_contracts(rsf))
+        rcs['read_u8_vec'] = ReadVecContract()
+        for l in equivalence_lemmas(rsf, preds):
+            if l.name not in lib:
+                lib[l.name] = l
+        spec.units = lemma_units(lib) + [u for u in spec.units if u.kind != 'lemma']
+        spec.lib = lib
+        loops = {('execute_instructions', 'take.for_each'): TakeLoop()}
+        for op in ('Generalization', 'Mu', 'MetaVar', 'ESubst', 'SSubst', 'Instantiate'):
+            spec.units.append(Unit(f'C06/rs/step/{op}/Proof', step_unit(prog, rcs, op, 'Proof', opts={'hof': hof, 'loops': loops}),
+                                   info={'split_depth': 2, 'op': op, 'phase': 'Proof', 'lib_exclude': tuple(PY_SIDE)}))
+        spec.lemma_replayers['C06/rs/step/'] = step_replayer
+        spec.assumptions = list(spec.assumptions) + RS_ASSUMPTIONS
+        spec.functions = list(spec.functions) + [('rust/src/lib.rs', 'execute_instructions (arms Generalization, Mu, MetaVar, ESubst, SSubst, Instantiate)')]
+        spec.extra_checks.append(lambda tier, seed: [differential_standin(repo.root, tier, seed)])
     if not rs_ok:
         spec.extra_checks.append(lambda tier, seed: [{'undecided': [('C06/rs', 'rust front end failed: ' + '; '.join(notes))]}])
     if JE is None:
